@@ -6445,6 +6445,11 @@ class PyCdlib:
         if rec.inode is None:
             raise pycdlibexception.PyCdlibInvalidInput('File has no data')
 
+        if rec.inode.boot_info_table is not None and self._needs_reshuffle:
+            # The boot info table records the extents of the PVD and of the
+            # file, so they have to be assigned before we can generate it.
+            self._reshuffle_extents()
+
         # A very large file consists of several Directory Records, each with
         # an Inode for its own part of the data.
         continuation_inos = []
